@@ -2,6 +2,8 @@ SPECIFICATION Spec
 CONSTANTS
   ValueStacks = {"a", "b"}
   Unbounded = 1000000
+  HasSteps = TRUE
+  HasInputs = TRUE
   MaxCalls = 5
   SizeChoices = {1, 3}
   ValueLists <- VL
